@@ -5,6 +5,7 @@ verus! {
 //@INCLUDE opcodes.rs
 //@INCLUDE prelude_compiler.rs
 //@INCLUDE compiler_convert_assumed.rs
+//@INCLUDE genpost_lemmas.rs
 
 pub open spec fn load_op(s: Scope) -> OpCode { if s == Scope::Global { OpCode::GetGlobal } else { OpCode::GetLocal } }
 pub open spec fn store_op(s: Scope) -> OpCode { if s == Scope::Global { OpCode::SetGlobal } else { OpCode::SetLocal } }
@@ -23,8 +24,14 @@ impl Compiler {
                 r is Ok && final(self).instructions@ =~= old(self).instructions@ + seq![opcode_byte(load_op(sym.scope))] + le16(sym.index as int)
             }),
             final(self).symbols == old(self).symbols, final(self).loop_contexts == old(self).loop_contexts, gen_inv(*final(self)),
+            r is Ok ==> gen_post(*old(self), *final(self), true),
     {
 //@ARM file=compiler.rs fn=compile_expression impl=Compiler arm="Expr::Identifier" rules="R1;R4"
+        proof {
+            let n = old(self).instructions@.len() as int;
+            assert(self.instructions@ =~= old(self).instructions@ + self.instructions@.subrange(n, n + 3));
+            lemma_gen_post_append(*old(self), *self, self.instructions@.subrange(n, n + 3));
+        }
         Ok(())
     }
 
@@ -44,9 +51,21 @@ impl Compiler {
                 &&& code[final(self).log@[k].end] == opcode_byte(store_op(sym.scope))
                 &&& u16_at(code, final(self).log@[k].end + 1) == sym.index
             }),
-            is_prefix(old(self).instructions@, final(self).instructions@),
+            r is Ok ==> is_prefix(old(self).instructions@, final(self).instructions@),
+            r is Ok ==> gen_post(*old(self), *final(self), true),
     {
+//@GHOST before="self.compile_expression(value)?;" let ghost s0 = *self;
+//@GHOST after="self.compile_expression(value)?;" let ghost s1 = *self;
 //@ARM file=compiler.rs fn=compile_statement impl=Compiler arm="Stmt::Let" rules="R1;R4"
+        proof {
+            let n = s1.instructions@.len() as int;
+            lemma_gen_post_same(*old(self), s0);
+            assert(self.instructions@ =~= s1.instructions@ + self.instructions@.subrange(n, n + 3));
+            lemma_gen_post_append(s1, *self, self.instructions@.subrange(n, n + 3));
+            lemma_gen_post_trans(*old(self), s0, s1, false, true);
+            lemma_gen_post_trans(*old(self), s1, *self, false, true);
+            lemma_gen_post_upgrade(*old(self), *self);
+        }
         Ok(())
     }
 
@@ -76,9 +95,23 @@ impl Compiler {
                 &&& final(self).instructions@.last() == opcode_byte(OpCode::IndexSet)
             }),
             (!(**left is Identifier) && !(**left is Index)) ==> r is Err,
-            is_prefix(old(self).instructions@, final(self).instructions@),
+            r is Ok ==> is_prefix(old(self).instructions@, final(self).instructions@),
+            r is Ok ==> gen_post(*old(self), *final(self), true),
     {
+//@GHOST after="self.compile_expression(left)?;" let ghost t1 = *self;
+//@GHOST after="self.compile_expression(index)?;" let ghost t2 = *self;
+//@GHOST after="self.compile_expression(right)?;" let ghost t3 = *self;
+//@GHOST after="self.emit_opcode(OpCode::IndexSet);" proof { lemma_gen_post_trans(*old(self), t1, t2, true, true); lemma_gen_post_trans(*old(self), t2, t3, true, true); assert(self.instructions@ =~= t3.instructions@ + seq![opcode_byte(OpCode::IndexSet)]); lemma_gen_post_append(t3, *self, seq![opcode_byte(OpCode::IndexSet)]); lemma_gen_post_trans(*old(self), t3, *self, true, true); }
+//@GHOST before="let name = match &**left {" let ghost mut u1 = *self;
+//@GHOST before="match symbol.scope {" proof { u1 = *self; }
 //@ARM file=compiler.rs fn=compile_expression impl=Compiler arm="Expr::Assign" rules="R1;R4"
+        proof {
+            // the identifier path (the element path returned above): right-hand side, then store + load = 6 bytes
+            let n = u1.instructions@.len() as int;
+            assert(self.instructions@ =~= u1.instructions@ + self.instructions@.subrange(n, n + 6));
+            lemma_gen_post_append(u1, *self, self.instructions@.subrange(n, n + 6));
+            lemma_gen_post_trans(*old(self), u1, *self, true, true);
+        }
         Ok(())
     }
 }
